@@ -476,6 +476,20 @@ func (e *SpecEnv) ident(name string) SVal {
 	if _, ok := e.x.S.Ghosts[name]; ok {
 		return SVal{T: name, Sort: "ghostfn"}
 	}
+	// fall back to any loaded package with this name (contracts of interface methods have no package scope)
+	var cand *types.Package
+	n := 0
+	for _, lp := range e.x.P.flat {
+		if lp.Types != nil && lp.Types.Name() == name {
+			if cand == nil || len(lp.PkgPath) < len(cand.Path()) {
+				cand = lp.Types
+			}
+			n++
+		}
+	}
+	if cand != nil {
+		return SVal{Pkg: cand}
+	}
 	e.fail("unknown identifier %q", name)
 	return SVal{}
 }
@@ -840,6 +854,25 @@ func (e *SpecEnv) call(x *Expr) SVal {
 		case "off":
 			a := e.eval(args[0])
 			return goVal("(s.off "+a.T+")", tInt)
+		case "sha256", "sha384", "sha512":
+			a := e.eval(args[0])
+			if e.sortOfVal(a) != "BV" {
+				e.fail("%s needs a byte-string value (use val(...))", fn.Name)
+			}
+			n := map[string]int{"sha256": 32, "sha384": 48, "sha512": 64}[fn.Name]
+			hf := c.declFun("hash:"+fn.Name, []string{"BV"}, "(Array Int Int)")
+			return ghostVal(app("bv.of", app(hf, a.T), "0", num(int64(n))), "BV")
+		case "dyn":
+			// dyn(x, *T): the *T held by interface value x, or nil when x holds something else
+			a := e.eval(args[0])
+			t := e.eval(args[1])
+			if t.IsType == nil {
+				e.fail("dyn(x, Type)")
+			}
+			if _, ok := t.IsType.Underlying().(*types.Pointer); !ok {
+				e.fail("dyn supports pointer types only")
+			}
+			return goVal(ite(fmt.Sprintf("(= (i.tid %s) %d)", a.T, c.typeID(t.IsType)), "(i.ref "+a.T+")", "0"), t.IsType)
 		case "same":
 			// same(a, b): identical slice headers / identical values
 			a, b := e.eval(args[0]), e.eval(args[1])
@@ -961,6 +994,9 @@ func (e *SpecEnv) call(x *Expr) SVal {
 			ret := e.x.resolveSort(g.Ret)
 			fnm := c.declFun("ghost:"+g.Name, rs, ret)
 			if ret != g.Ret {
+				if isGoTypeSpec(g.Ret) {
+					return goVal(app(fnm, as...), e.x.resolveType(g.Ret))
+				}
 				return ghostVal(app(fnm, as...), ret)
 			}
 			if g.Ret == "String" || contains(g.Args, "String") {
@@ -1064,7 +1100,23 @@ func (e *SpecEnv) assignTarget(part string) ([]assignTarget, error) {
 		}
 		return []assignTarget{{c.fieldHeap(pt.Elem(), i), base.T}}, nil
 	}
+	if ex.Op == "id" {
+		if sv, ok := e.vars[ex.Name]; ok && sv.sv.Dyn != nil && sv.sv.DynV != nil && sv.sv.DynV.T != "" {
+			// interface-typed parameter whose dynamic type is known at this call site
+			if pt, ok := sv.sv.Dyn.Underlying().(*types.Pointer); ok {
+				if s, ok := pt.Elem().Underlying().(*types.Struct); ok {
+					for i := 0; i < s.NumFields(); i++ {
+						out = append(out, assignTarget{c.fieldHeap(pt.Elem(), i), sv.sv.DynV.T})
+					}
+					return out, nil
+				}
+			}
+		}
+	}
 	v := e.eval(ex)
+	if _, isI := v.Typ.Underlying().(*types.Interface); isI {
+		return nil, nil // unknown dynamic type: nothing nameable (listed as abstraction)
+	}
 	switch u := v.Typ.Underlying().(type) {
 	case *types.Pointer:
 		if s, ok := u.Elem().Underlying().(*types.Struct); ok {
